@@ -21,6 +21,30 @@ mod s2;
 mod s3;
 mod s8;
 
+/// Host for the textually included NEON scanner source (see build.rs).
+mod iter {
+    pub use httparse::_benchable::Bytes;
+}
+mod neon_host {
+    /// what neon.rs reaches through `super::swar::*`: the real word-at-a-time scanners
+    pub mod swar {
+        use httparse::_benchable::Bytes;
+        pub fn match_uri_vectored(b: &mut Bytes<'_>) {
+            httparse::_verif::scan(httparse::_verif::BACKEND_SWAR, httparse::_verif::CLASS_URI, b);
+        }
+        pub fn match_header_value_vectored(b: &mut Bytes<'_>) {
+            httparse::_verif::scan(httparse::_verif::BACKEND_SWAR, httparse::_verif::CLASS_HEADER_VALUE, b);
+        }
+        pub fn match_header_name_vectored(b: &mut Bytes<'_>) {
+            httparse::_verif::scan(httparse::_verif::BACKEND_SWAR, httparse::_verif::CLASS_HEADER_NAME, b);
+        }
+    }
+    #[allow(dead_code, clippy::all)]
+    pub mod neon {
+        include!(concat!(env!("OUT_DIR"), "/neon_subject.rs"));
+    }
+}
+
 use std::path::PathBuf;
 use std::sync::Arc;
 use std::time::{Duration, Instant};
@@ -80,7 +104,7 @@ fn run(args: &[String]) {
         threads,
         wall_cap: Duration::from_secs(cap),
         max_input: 1 << 21,
-        max_headers: 200_000,
+        max_headers: 400_000,
     };
     let t0 = Instant::now();
     let res = runner::run(&cfg, journal, p.phases);
